@@ -6,8 +6,8 @@ from common import *
 
 RULE = ('structured lattice: UTC date-times {range ends +- up to 2 days at s/ns granularity, midnights, leap '
         'seconds, calendar corners} x offsets {0,+-1s,+-59s,+-1min,+-30min,+-1h,+-2h,+-12h,+-23:59:59,...} x every z.* op '
-        '(constructors, accessors, setters with boundary arguments, with_time, day/month stepping, eq/cmp/hash '
-        'pairs), east/west arguments +-86399/+-86400/i32 extremes, plus seeded random draws')
+        '(constructors, accessors incl. the provided Datelike/Timelike methods, From conversions, setters with boundary arguments, with_time, '
+        'day/month stepping in checked and operator form, eq/cmp/partial_cmp/hash pairs), utc_minus_local, east/west arguments +-86399/+-86400/i32 extremes, plus seeded random draws')
 
 MIN_YEAR, MAX_YEAR = -262143, 262142
 DAY = 86400
@@ -146,7 +146,7 @@ SPAN_M = (MAX_YEAR - MIN_YEAR) * 12 + 11
 DAYS_N = [0, 1, 2, 28, 29, 30, 31, 364, 365, 366, 367, 730, 146097, SPAN_D - 1, SPAN_D, SPAN_D + 1, SPAN_D + 2, I32_MAX,
           I32_MAX + 1, U64_MAX, 2**32]
 MONTHS_N = [0, 1, 2, 11, 12, 13, 24, 4800, SPAN_M - 1, SPAN_M, SPAN_M + 1, SPAN_M + 2, I32_MAX, I32_MAX + 1, U32_MAX]
-UNARY = ['z.nutc', 'z.nlocal', 'z.acc', 'z.time', 'z.datenaive', 'z.fixed', 'z.toutc']
+UNARY = ['z.nutc', 'z.nlocal', 'z.acc', 'z.time', 'z.datenaive', 'z.fixed', 'z.toutc', 'z.prov', 'z.conv']
 
 
 def cases(tier, rng):
@@ -155,6 +155,9 @@ def cases(tier, rng):
     for s in around([0, 86399, 86400, -86399, -86400, I32_MAX, I32_MIN, 3600, -3600], (-2, -1, 0, 1, 2), lo=I32_MIN, hi=I32_MAX):
         yield case_line('z.east', s)
         yield case_line('z.west', s)
+        yield case_line('z.uml', s)
+        yield case_line('z.peast', s)
+        yield case_line('z.pwest', s)
     ends = end_instants()
     mids = mid_instants()
     offs = OFFS_CORE + (OFFS_MORE if not quick else OFFS_MORE[:4])
@@ -179,11 +182,14 @@ def cases(tier, rng):
         yield case_line('z.show', z, 0)
         yield case_line('z.show', z, 1)
         yield case_line('z.fromutc', off, naive(t, f))
+        yield case_line('z.mk', off, naive(t, f))
+        yield case_line('z.pfromlocal', off, naive(t, f))
         # the wall clock as a local input (when it is a nominal NaiveDateTime), and the UTC reading as one
         yield case_line('z.fromlocal', off, naive(t, f))
         w = t + off
         if TMIN <= w <= TMAX:
             yield case_line('z.fromlocal', off, naive(w, f))
+            yield case_line('z.pfromlocal', off, naive(w, f))
     # conversions between zones
     for (t, f, off) in end_z[::7] + mid_z[::5]:
         for off2 in (0, 1, -3600, 86399, -86399, 19800):
@@ -219,6 +225,8 @@ def cases(tier, rng):
         for n in (MONTHS_N[::2] if quick else MONTHS_N):
             yield case_line('z.months', z, 1, n)
             yield case_line('z.months', z, -1, n)
+            yield case_line('z.opmonths', z, 1, n)
+            yield case_line('z.opmonths', z, -1, n)
     # ---- eq / cmp / hash: pairs with equal and neighbouring instants under different offsets
     pool = []
     for t in ends[:12] + mids[:18]:
@@ -229,7 +237,7 @@ def cases(tier, rng):
             if not (TMIN <= t2 <= TMAX and 0 <= f2 < 2 * G):
                 continue
             for (o1, o2) in ((0, 0), (3600, -3600), (86399, -86399), (1, 0), (-43200, 43200)):
-                for op in ('z.eq', 'z.cmp', 'z.hasheq'):
+                for op in ('z.eq', 'z.cmp', 'z.hasheq', 'z.pcmp'):
                     yield case_line(op, zval(t, f, o1), zval(t2, f2, o2))
     # ---- with_ymd_and_hms
     for off in (0, 1, -1, 3600, -3600, 7200, -7200, 86399, -86399):
@@ -239,6 +247,16 @@ def cases(tier, rng):
             for (h, mi, s) in [(0, 0, 0), (23, 59, 59), (1, 0, 0), (2, 0, 0), (22, 0, 0), (24, 0, 0), (0, 60, 0), (0, 0, 60),
                                (12, 30, 15), (U32_MAX, 0, 0), (1, 59, 59), (21, 59, 59)]:
                 yield case_line('z.ymdhms', off, y, m, d, h, mi, s)
+    # z.prov mid-range: every month of a leap, a common and a century year, every hour of the day
+    for y in (2023, 2024, 1900, 2000, 0, -1, 1, -4):
+        for m in range(1, 13):
+            for d in (1, 15, 28):
+                t0 = dn_of_ymd(y, m, d) * DAY + ((m * 2 + d) % 24) * 3600 + 59
+                yield case_line('z.prov', zval(t0, 0, rng.choice(OFFS_CORE)))
+    for h in range(24):
+        yield case_line('z.prov', zval(dn_of_ymd(2024, 2, 29) * DAY + h * 3600 + 1800, 7, 0))
+    for s in range(-86399, 86400, 3557):
+        yield case_line('z.uml', s)
     # ---- random
     n = 30000 if quick else 2000000
     for _ in range(n):
@@ -252,9 +270,9 @@ def cases(tier, rng):
             off = rand_off(rng)
             k = rng.random()
             t = rand_instant(rng)
-            yield case_line('z.fromlocal', off, naive(t, rand_frac(rng)))
+            yield case_line(rng.choice(['z.fromlocal', 'z.fromlocal', 'z.pfromlocal']), off, naive(t, rand_frac(rng)))
         elif r < 0.35:
-            yield case_line('z.fromutc', rand_off(rng), naive(rand_instant(rng), rand_frac(rng)))
+            yield case_line(rng.choice(['z.fromutc', 'z.mk']), rand_off(rng), naive(rand_instant(rng), rand_frac(rng)))
         elif r < 0.4:
             yield case_line('z.withtz', z, rand_off(rng))
         elif r < 0.6:
@@ -273,7 +291,7 @@ def cases(tier, rng):
             yield case_line('z.days', z, rng.choice([1, -1]), n_)
         elif r < 0.9:
             n_ = rng.choice([rng.randint(0, 40), rng.randint(0, 5000), rng.randint(0, 6300000), rng.choice(MONTHS_N)])
-            yield case_line('z.months', z, rng.choice([1, -1]), n_)
+            yield case_line(rng.choice(['z.months', 'z.opmonths']), z, rng.choice([1, -1]), n_)
         elif r < 0.97:
             k = rng.random()
             if k < 0.4:
@@ -283,7 +301,7 @@ def cases(tier, rng):
                 z2 = zval(min(max(t2, TMIN), TMAX), z[3], rand_off(rng))
             else:
                 z2 = rand_z(rng)
-            yield case_line(rng.choice(['z.eq', 'z.cmp', 'z.hasheq']), z, z2)
+            yield case_line(rng.choice(['z.eq', 'z.cmp', 'z.hasheq', 'z.pcmp']), z, z2)
         else:
             y = rng.choice([rng.randint(1900, 2100), rng.randint(MIN_YEAR - 1, MAX_YEAR + 1), MIN_YEAR, MAX_YEAR])
             yield case_line('z.ymdhms', rand_off(rng), y, rng.randint(0, 13), rng.randint(0, 32), rng.randint(0, 24),
